@@ -61,7 +61,7 @@ def run(ctx):
         return
     eng = Engine(F)
     eng.key_all = True
-    outs = eng.call_path(FN, eng.symbolic_args(b))
+    outs = eng.call_path(FN, eng.symbolic_args(b, names=["self"]))
     i_ti, i_fp, i_val = field_index(F, "dlt::Argument", "type_info"), field_index(F, "dlt::Argument", "fixed_point"), field_index(F, "dlt::Argument", "value")
     i_kind = field_index(F, "dlt::TypeInfo", "kind")
     n_some = n_none = 0
